@@ -2,7 +2,8 @@
 import io
 from vfam import *  # noqa
 
-THEOREMS = []
+THEOREMS = ["C03_uint_roundtrip", "C03_uint_same_value", "C03_bool_roundtrip"]
+PARTIAL = ["C03_roundtrip is proved for uintN and boolean with scoped stream decoding (arbitrary suffix returned untouched); for every other kind it is tied by the correspondence: encoding placed between a random prefix and suffix, decoded with the exact scope, success / root / re-encoding / == / bytes consumed compared with the model (random, boundary and full values, nested variable-size types)"]
 COQ_IMPORTS = ["RM.Types", "RMR.RunV"]
 COQ_FN = "RunV.run_c03"
 COQ_CASE_TY = "(ty * val * bytes)"
